@@ -364,6 +364,13 @@ def main(argv):
         # 3. audit
         if not proof_failed:
             problems = audit(cfg["prop_file"], report)
+            for extra in cfg.get("extra_prop_files", []):
+                r2 = {}
+                problems = problems + audit(extra, r2)
+                for k in ("obligations", "property_theorems", "print_assumptions_closed"):
+                    report[k] = report.get(k, 0) + r2.get(k, 0)
+                report["closure_files"] = sorted(set(report.get("closure_files", []) + r2.get("closure_files", [])))
+            report["audit_problems"] = problems
             if problems:
                 violations.append({"kind": "audit", "key": "audit", "desc": "; ".join(problems)[:2000], "found_input": False})
         # thorough tier: independent re-check of the compiled property file and everything it depends on
